@@ -88,6 +88,17 @@ fn squares(n: usize, step: f64, size: f64) -> Vec<Polygon<f64>> {
 
 pub type Op = (String, Box<dyn Fn() -> u64 + Send + Sync>);
 
+/// side channel of the `history.*` ops: an op that owns a stateful object (a prepared detector) compares the answer
+/// to one query before and after other queries on the same object, and with a fresh object; a difference is noted here
+pub static HISTORY_MISMATCH: std::sync::Mutex<Vec<String>> = std::sync::Mutex::new(Vec::new());
+fn note_history(msg: String) {
+    if let Ok(mut g) = HISTORY_MISMATCH.lock() {
+        if g.len() < 16 {
+            g.push(msg);
+        }
+    }
+}
+
 /// scale: 0 = toy (Miri), 1 = small (quick), 2 = adds the large inputs that switch on i_overlay's
 /// parallel splitter (>= 8000 segments) and parallel sort (> 32768 segments)
 pub fn ops(seed: u64, scale: u32) -> Vec<Op> {
@@ -184,6 +195,26 @@ pub fn ops(seed: u64, scale: u32) -> Vec<Op> {
         add(format!("convex_hull.{i}"), Box::new(move || { let mut h = Fnv::new(); dig_poly(&mut h, &m3.convex_hull()); h.0 }));
         let m4 = mpt.clone();
         add(format!("outliers.{i}"), Box::new(move || dig_f(&m4.outliers(5.min(npts - 1)))));
+        // one prepared detector, several queries: the answer to a query must not depend on the queries made before
+        let m7 = mpt.clone();
+        let ks: Vec<usize> = (0..4).map(|_| r.range(1, (npts as i64 - 1).min(9)) as usize).collect();
+        add(format!("history.prepared_detector.{i}"), Box::new(move || {
+            use geo::OutlierDetection;
+            let det = m7.prepared_detector();
+            let firsts: Vec<Vec<f64>> = ks.iter().map(|&k| det.outliers(k)).collect();
+            let mut h = Fnv::new();
+            for (j, &k) in ks.iter().enumerate().rev() {
+                let again = det.outliers(k);
+                let fresh = m7.prepared_detector().outliers(k);
+                let oneshot = m7.outliers(k);
+                let same = |a: &[f64], b: &[f64]| a.len() == b.len() && a.iter().zip(b).all(|(x, y)| x.to_bits() == y.to_bits());
+                if !same(&firsts[j], &again) || !same(&firsts[j], &fresh) || !same(&fresh, &oneshot) {
+                    note_history(format!("PreparedDetector::outliers({k}) after queries {:?}: first answer / repeated on the same detector / fresh detector / one-shot differ (first {:?} again {:?} fresh {:?})", ks, &firsts[j][..firsts[j].len().min(4)], &again[..again.len().min(4)], &fresh[..fresh.len().min(4)]));
+                }
+                h.u64(dig_f(&again));
+            }
+            h.0
+        }));
         let m5 = mpt.clone();
         add(format!("par_iter.multipoint.{i}"), Box::new(move || {
             let xs: Vec<f64> = m5.par_iter().map(|p| p.x() * 3.0 + p.y()).collect();
@@ -280,6 +311,12 @@ pub fn run(ctx: &Ctx, sh: &mut Shard) {
                 }
                 _ => sh.class(&format!("panic_observed:{}", name.split('.').next().unwrap_or(""))),
             }
+            if name.starts_with("history.") {
+                let notes: Vec<String> = HISTORY_MISMATCH.lock().map(|mut g| g.drain(..).collect()).unwrap_or_default();
+                if let Some(n) = notes.first() {
+                    sh.violation("history_dependence|history|-", json!({"property": "C20", "check": "history_dependence", "op": name, "ops_seed": seed, "scale": scale, "expected": "the same answer to the same query on the same object, whatever was asked before", "got": n}));
+                }
+            }
             sh.class(&format!("op:{}", name.split('.').next().unwrap_or("")));
             sh.sample(|| json!({"op": name, "digest": format!("{:016x}", first[i].unwrap_or(0))}));
         }
@@ -319,6 +356,10 @@ pub fn replay(v: &Value, sh: &mut Shard) {
         if name == want {
             let (a, b) = (f(), f());
             println!("{name}: first call {a:016x} second call {b:016x}");
+            for n in HISTORY_MISMATCH.lock().map(|mut g| g.drain(..).collect::<Vec<String>>()).unwrap_or_default() {
+                println!("{n}");
+                sh.violation("history_dependence|replay|-", json!({"got": n}));
+            }
             sh.eval(1);
             if a != b {
                 sh.violation("repeat_in_process|replay|-", json!({"expected": format!("{a:016x}"), "got": format!("{b:016x}")}));
